@@ -310,8 +310,11 @@ class Sccp:
     `call_model(call, argvals) -> value or None` models calls returning constants.
     """
 
-    def __init__(self, fn, call_model=None, stop_blocks=(), removed_edges=()):
+    def __init__(self, fn, call_model=None, stop_blocks=(), removed_edges=(), field_model=None):
         self.fn = fn
+        # field_model(owner, field) -> abstract value or None: the value of every read whose last projection is that field
+        # (a configuration flag fixed for one row of a table), wherever the read sits — callee, closure or the function itself
+        self.field_model = field_model
         self.stop_blocks = set(stop_blocks)
         self.removed_edges = set(removed_edges)
         self.call_model = call_model
@@ -372,16 +375,38 @@ class Sccp:
         if p is not None:
             if p["l"] in self.mutb and not p["p"]:
                 pass
+            if self.field_model is not None and p["p"]:
+                last = p["p"][-1]
+                if isinstance(last, dict) and "f" in last:
+                    v = self.field_model(last.get("of"), last["f"])
+                    if v is not None:
+                        return v
             return self._read(env, place_key(p))
         c = op_const(op)
         if c is not None and c.get("val") is not None:
             return I(c["val"])
         return None
 
+    def _field_value(self, place):
+        if self.field_model is not None and place["p"]:
+            last = place["p"][-1]
+            if isinstance(last, dict) and "f" in last:
+                return self.field_model(last.get("of"), last["f"])
+        return None
+
     def _rvalue(self, env, rv):
         k = rv["k"]
         if k == "use":
             return self._operand(env, rv["a"])
+        if k in ("ref", "discr") and self.field_model is not None:
+            fv = self._field_value(rv["place"])
+            if fv is not None:
+                if k == "ref":
+                    return fv if not rv.get("mut") else None
+                if fv[0] == "v":
+                    for d, name in rv.get("variants", []):
+                        if name == fv[1]:
+                            return I(d)
         if k == "un" and rv["op"] == "Not":
             a = self._operand(env, rv["a"])
             if a and a[0] == "i" and a[1] in (0, 1):
@@ -624,3 +649,136 @@ def guarded(fn, site_bbs, switches, polarity=True):
         removed.add(te if polarity else fe)
     r = C.reach(fn, [0], removed_edges=removed)
     return [s for s in site_bbs if s in r]
+
+
+# ---------------------------------------------------------------------------
+# Option / Result / bool combinators whose closures are in the fact base
+
+def combinator_model(facts, inner=None, depth=0, field_model=None, callees=None):
+    """A call model that answers the std combinators which merely re-spell an `if let` / `match` — Option::map_or, map,
+    filter, is_some_and, and_then, unwrap_or, is_some/is_none, Result::is_ok/is_err, bool::then_some … — by evaluating the
+    closure they are given (seeded propagation on the closure's body, same model inside). `inner(call, argv)` is consulted
+    first and for every call this model does not know. What a closure captures from its parent is unknown to it."""
+    def closure_of(call, i):
+        try:
+            e = ExprBuilder(call.fn).operand(call.args[i])
+        except Exception:
+            return None
+        for x in walk(e):
+            if x.k == "closure" and x[1] in facts.fns:
+                return facts.fns[x[1]]
+        return None
+
+    def run_closure(g, params):
+        if g is None or depth > 3:
+            return None
+        env = {}
+        for i, v in enumerate(params):
+            if v is not None:
+                Sccp._write(env, (2 + i, ()), v)
+        sx = Sccp(g, call_model=combinator_model(facts, inner, depth + 1, field_model, callees), field_model=field_model).run([(0, env)])
+        vals = set()
+        for v in sx.ret_values.values():
+            vals |= set(value_set(v))
+        if len(vals) == 1 and None not in vals:
+            return next(iter(vals))
+        if vals and None not in vals and len(vals) <= 4:
+            return ("s", frozenset(vals))
+        return None
+
+    def variant(v):
+        return v[1] if v is not None and v[0] == "v" else None
+
+    def run_callee(g, argv):
+        # a function of the workspace evaluated in place (callees(path) says which ones: small pure predicates / accessors)
+        if depth > 3:
+            return None
+        env = {}
+        for i, v in enumerate(argv):
+            if v is not None:
+                Sccp._write(env, (1 + i, ()), v)
+        sx = Sccp(g, call_model=combinator_model(facts, inner, depth + 1, field_model, callees), field_model=field_model).run([(0, env)])
+        vals = set()
+        for v in sx.ret_values.values():
+            vals |= set(value_set(v))
+        if len(vals) == 1 and None not in vals:
+            return next(iter(vals))
+        if vals and None not in vals and len(vals) <= 4:
+            return ("s", frozenset(vals))
+        return None
+
+    def model(call, argv):
+        if inner is not None:
+            r = inner(call, argv)
+            if r is not None:
+                return r
+        if callees is not None and call.callee in facts.fns and callees(call.callee):
+            return run_callee(facts.fns[call.callee], argv)
+        p = call.path
+        a0 = argv[0] if argv else None
+        va = variant(a0)
+        if p.endswith(("Option::map_or", "Result::map_or")):
+            if va in ("None", "Err"):
+                return argv[1]
+            if va in ("Some", "Ok"):
+                return run_closure(closure_of(call, 2), [a0[2]])
+            return None
+        if p.endswith(("Option::is_some_and", "Result::is_ok_and")):
+            if va in ("None", "Err"):
+                return I(0)
+            if va in ("Some", "Ok"):
+                return run_closure(closure_of(call, 1), [a0[2]])
+            return None
+        if p.endswith("Option::is_none_or"):
+            if va == "None":
+                return I(1)
+            if va == "Some":
+                return run_closure(closure_of(call, 1), [a0[2]])
+            return None
+        if p.endswith(("Option::map", "Result::map")):
+            if va in ("None", "Err"):
+                return a0
+            if va in ("Some", "Ok"):
+                return V(va, run_closure(closure_of(call, 1), [a0[2]]))
+            return None
+        if p.endswith("Option::and_then"):
+            if va == "None":
+                return a0
+            if va == "Some":
+                return run_closure(closure_of(call, 1), [a0[2]])
+            return None
+        if p.endswith("Option::filter"):
+            if va == "None":
+                return a0
+            if va == "Some":
+                keep = run_closure(closure_of(call, 1), [a0[2]])
+                if keep == I(1):
+                    return a0
+                if keep == I(0):
+                    return V("None", None)
+                return ("s", frozenset([a0, V("None", None)]))
+            return None
+        if p.endswith(("Option::unwrap_or", "Result::unwrap_or")):
+            if va in ("None", "Err"):
+                return argv[1]
+            if va in ("Some", "Ok"):
+                return a0[2]
+            return None
+        if p.endswith(("Option::is_some", "Result::is_ok")):
+            return I(1) if va in ("Some", "Ok") else (I(0) if va in ("None", "Err") else None)
+        if p.endswith(("Option::is_none", "Result::is_err")):
+            return I(1) if va in ("None", "Err") else (I(0) if va in ("Some", "Ok") else None)
+        if p.endswith("bool::then_some"):
+            if a0 == I(1):
+                return V("Some", argv[1])
+            if a0 == I(0):
+                return V("None", None)
+            return None
+        if p.endswith("bool::then"):
+            if a0 == I(1):
+                return V("Some", run_closure(closure_of(call, 1), []))
+            if a0 == I(0):
+                return V("None", None)
+            return None
+        return None
+    return model
